@@ -66,6 +66,7 @@ type GateFailure struct {
 	Stage  string // compile-panic | build-opt | build-unopt
 	Msg    string
 	Source string
+	Files  map[string]string // the function with everything it references, as files of a package
 }
 
 func (e *Env) NewBatch(p *gen.Prog) *Batch {
@@ -122,9 +123,11 @@ func (b *Batch) WriteSources() {
 		writeFile(filepath.Join(b.Dir, "src", p.Pkg, f.Name), p.RenderFile(f, gen.Mode{}))
 		writeFile(filepath.Join(b.Dir, "ref", p.Pkg, f.Name), p.RenderFile(f, gen.Mode{Ref: true}))
 	}
-	reg := p.RenderReg()
-	writeFile(filepath.Join(b.Dir, "src", p.Pkg, "reg.go"), reg)
-	writeFile(filepath.Join(b.Dir, "ref", p.Pkg, "reg.go"), reg)
+	if len(p.Files) > 0 {
+		reg := p.RenderReg()
+		writeFile(filepath.Join(b.Dir, "src", p.Pkg, "reg.go"), reg)
+		writeFile(filepath.Join(b.Dir, "ref", p.Pkg, "reg.go"), reg)
+	}
 	main := fmt.Sprintf("package main\n\nimport (\n\topt \"scratch/opt/%[1]s\"\n\tref \"scratch/ref/%[1]s\"\n\tunopt \"scratch/unopt/%[1]s\"\n\t\"verif/sim/driver\"\n)\n\nfunc main() { driver.Main(ref.Entries, opt.Entries, unopt.Entries) }\n", p.Pkg)
 	writeFile(filepath.Join(b.Dir, "main.go"), main)
 }
@@ -207,7 +210,8 @@ func (b *Batch) Compile(needUnopt bool) bool {
 			if culprit == nil {
 				ev.Infra("compiler fails on the batch but on no single function: %s", msg)
 			}
-			b.Gate = append(b.Gate, GateFailure{Func: culprit.Name, Stage: "compile-panic", Msg: b.singleMsg(culprit), Source: b.Prog.RenderFunc(culprit, gen.Mode{})})
+			b.Gate = append(b.Gate, GateFailure{Func: culprit.Name, Stage: "compile-panic", Msg: b.singleMsg(culprit), Source: b.Prog.RenderFunc(culprit, gen.Mode{}),
+				Files: filesOf(b.Prog.Subset(b.Prog.Closure(culprit.Name)))})
 			b.Prog.Remove(culprit.Name)
 			continue
 		}
@@ -261,6 +265,7 @@ func (b *Batch) Compile(needUnopt bool) bool {
 			g := culprits[n]
 			if f := b.Prog.Find(n); f != nil {
 				g.Source = b.Prog.RenderFunc(f, gen.Mode{})
+				g.Files = filesOf(b.Prog.Subset(b.Prog.Closure(n)))
 			}
 			b.Gate = append(b.Gate, g)
 			b.Prog.Remove(n)
